@@ -116,11 +116,12 @@ def _sym_range_iter(*args, max_len=64):
         start, stop, step = args[0], args[1], 1
     else:
         start, stop, step = args
-    if isinstance(step, SymReal):
-        step = builtins.int(step)
+    if isinstance(step, SymReal) and step.t.op == "const":
+        step = builtins.int(step.t.args[0])
     i = start
     n = 0
-    while (i < stop) if step > 0 else (i > stop):
+    up = builtins.bool(step > 0)  # forks / is forced by the path condition when symbolic
+    while (i < stop) if up else (i > stop):
         yield i
         i = i + step
         n += 1
